@@ -81,3 +81,36 @@ def std_globals(c):
     c.requires(z3.Or(m.t == 0, m.t >= 640), "liquid.limits.MAX_STR_INT is 0 (unlimited) or >= 640")
     c.override_global("liquid.limits", "MAX_STR_INT", m)
     c.pools["MAX_STR_INT"] = [4300]  # CPython's default int-to-str digit limit (the value the native side runs with)
+
+
+# ---- ReadOnlyChainMap lookup: shared by C14 (innermost binding) and C27 (with/macro arguments
+# ---- shadow outer names, also when the bound value is nil)
+
+def lookup_spec(dicts, k, i=0):
+    """value of the first map containing k; None (python) if no map contains it"""
+    if i == len(dicts):
+        return None
+    rest = lookup_spec(dicts, k, i + 1)
+    here = z3.Select(dicts[i].val, k)
+    return here if rest is None else z3.If(z3.Select(dicts[i].present, k), here, rest)
+
+
+def chain_getitem_contract(prop, n, replay_code):
+    from pyvc.contract import contract
+
+    @contract(CHAIN + ".__getitem__", prop=prop, name=f"ReadOnlyChainMap.__getitem__[chain-length-{n}]")
+    def chain_getitem(c):
+        maps = [c.dict(f"m{i}") for i in range(n)]
+        hs = [c.st.deref(m).copy() for m in maps]
+        self = mk_chain(c, maps)
+        k = c.str("key")
+        kb = U.str(k.t)
+        c.call(k, self_val=self)
+        anyp = z3.Or(*[z3.Select(h.present, kb) for h in hs])
+        c.ensures("returns-innermost-binding", lambda r: z3.And(anyp, box(r.value) == lookup_spec(hs, kb)))
+        c.raises("KeyError")
+        c.ensures_exc("keyerror-iff-unbound-everywhere", lambda r: z3.Not(anyp))
+        c.cover("innermost-binding-is-nil-and-an-outer-map-binds-the-key-too", lambda r: z3.And(z3.Select(hs[0].present, kb), z3.Select(hs[0].val, kb) == U.none, *( [z3.Select(hs[1].present, kb), z3.Select(hs[1].val, kb) != U.none] if n > 1 else [])) if r.exc is None else None)
+        c.assume_note(f"BOUNDED in the chain length only: chain of {n} maps, each map arbitrary (the lookup loop is unrolled over the concrete deque)")
+        c.replay("code", code=replay_code())
+    return chain_getitem
